@@ -331,6 +331,7 @@ Op gen_self_contained_op(Rng& r, int id, bool crystal_catalogue) {
     static const double es[] = {8.0, 12.0, 17.4, 8.047};
     o.d[0] = r.chance(3, 4) ? es[r.below(4)] : gen_E(r);
     for (int k = 0; k < 3; k++) o.i[k] = r.range(-3, 3);
+    if (r.chance(1, 2)) { static const int hk[4][3] = {{1, 1, 1}, {2, 2, 0}, {1, 0, 0}, {3, 1, 1}}; int w = (int)r.below(4); for (int k = 0; k < 3; k++) o.i[k] = hk[w][k]; }
     if (r.chance(1, 12)) o.i[0] = o.i[1] = o.i[2] = 0;
     static const double db[] = {1.0, 0.85, 0.5};
     o.d[1] = r.chance(5, 6) ? db[r.below(3)] : gen_density(r);
@@ -602,6 +603,7 @@ static Op gen_crystal_math(Rng& r, GenState& st, int id, const GenCfg& cfg) {
   { static const double es[] = {8.0, 12.0, 17.4, 8.047}; o.d[0] = r.chance(1, 2) ? es[r.below(4)] : r.chance(3, 5) ? 1.0 + r.unit() * 40 : gen_E(r); }
   if (o.h[0] == -1 && !o.i[3] && r.chance(1, 3)) { o.s = pick_builtin_name(r); }
   for (int k = 0; k < 3; k++) o.i[k] = r.chance(9, 10) ? r.range(-4, 4) : r.range(-1000, 1000);
+  if (r.chance(2, 5)) { static const int hk[4][3] = {{1, 1, 1}, {2, 2, 0}, {1, 0, 0}, {3, 1, 1}}; int w = (int)r.below(4); for (int k = 0; k < 3; k++) o.i[k] = hk[w][k]; }
   if (r.chance(1, 15)) o.i[0] = o.i[1] = o.i[2] = 0;
   { static const double db[] = {1.0, 0.85, 0.5}; o.d[1] = r.chance(1, 2) ? db[r.below(3)] : r.chance(4, 5) ? 0.5 + r.unit() * 0.5 : gen_density(r); }  // debye
   o.d[2] = r.chance(4, 5) ? 1.0 : gen_angle(r);                     // rel angle
